@@ -4,6 +4,7 @@ import Mingus.Model.Intervals
 import Mingus.Model.Scales
 import Mingus.Model.Chords
 import Mingus.Model.Progressions
+import Mingus.Model.Value
 /- Line-protocol dispatch: function name + decoded arguments → observation. -/
 namespace Mingus
 open Val
@@ -142,7 +143,38 @@ def dispatchProg : String → List Val → Option Val
   | "prog.interval_diff", [str a, str b, int iv] => some (toVal (Progressions.intervalDiff a b iv))
   | _, _ => none
 
+def ratOf : Val → Option Rat
+  | .rat n d => some ((n : Rat) / (d : Rat))
+  | .int i => some (i : Rat)
+  | _ => Option.none
+def ratVal (q : Rat) : Val := .rat q.num q.den
+def numOf : Val → Option Value.Num
+  | .str x => match String.ofList x with
+    | "nan" => some .nan | "inf" => some .posInf | "-inf" => some .negInf | _ => Option.none
+  | v => (ratOf v).map Value.Num.rat
+
+def dispatchValue : String → List Val → Option Val
+  | "value.determine", [v] => (ratOf v).map fun q => match Value.determine q with
+      | .ok (b, d, r1, r2) => .list [ratVal b, toVal d, toVal r1, toVal r2]
+      | .error e => .err e
+  | "value.dots", [v, int n] => (ratOf v).map fun q => ratVal (Value.dotsF q n.toNat)
+  | "value.dots_exact", [v, int n] => (ratOf v).map fun q => ratVal (Value.dotsExact q n.toNat)
+  | "value.tuplet", [v, int a, int b] => (ratOf v).map fun q => ratVal (Value.tuplet q a.toNat b.toNat)
+  | "value.add", [a, b] => match ratOf a, ratOf b with
+      | some x, some y => some (ratVal (Value.add x y))
+      | _, _ => Option.none
+  | "value.subtract", [a, b] => match ratOf a, ratOf b with
+      | some x, some y => some (ratVal (Value.subtract x y))
+      | _, _ => Option.none
+  | "meter.valid_beat_duration", [v] => (numOf v).map fun n => toVal (Value.validBeat n)
+  | "meter.is_valid", [int c, v] => (numOf v).map fun n => toVal (Value.isValid c n)
+  | "meter.is_simple", [int c, v] => (numOf v).map fun n => toVal (Value.isValid c n)
+  | "meter.is_compound", [int c, v] => (numOf v).map fun n => toVal (Value.isCompound c n)
+  | "meter.is_asymmetrical", [int c, v] => (numOf v).map fun n => toVal (Value.isAsymmetrical c n)
+  | _, _ => none
+
 def dispatch (fn : String) (args : List Val) : Option Val :=
+  (dispatchValue fn args).orElse fun _ =>
   (dispatchProg fn args).orElse fun _ =>
   (dispatchChords fn args).orElse fun _ =>
   (dispatchScales fn args).orElse fun _ =>
